@@ -32,6 +32,7 @@ type PipeGenOpts struct {
 	FillToMax   bool // some datagrams are padded to within 40 octets of max-udp-size
 	SmallUDP    bool // max-udp-size may be small
 	BadHeaders  bool // datagrams whose header must be rejected (wrong version, too short)
+	MidPolls    bool // stats API read in the middle of phases as well
 	SockLoss    bool // tiny socket receive queue: bursts lose datagrams before the collector reads them
 	Dyn         bool // dynamic workers: load peak, long idle period (scale-down), then traffic again
 	Hostile     bool // add hostile exporters (structurally hostile and byte-corrupted datagrams) and liveness probes
@@ -637,6 +638,18 @@ func genPipePlan(seed int64, o PipeGenOpts) *PipePlan {
 	}
 	if o.SmallMQ && r.Intn(4) == 0 {
 		p.Cfg.CapMQ = 1 + r.Intn(3)
+	}
+	if o.MidPolls && !o.Dyn {
+		// the stats API is read while datagrams are in flight: at delivery
+		// instants and shortly after them
+		n := 1 + r.Intn(6)
+		for i := 0; i < n && len(p.Dels) > 0; i++ {
+			d := &p.Dels[r.Intn(len(p.Dels))]
+			if d.AbsUs > 0 {
+				continue
+			}
+			p.MidPolls = append(p.MidPolls, MidPoll{Phase: d.Phase, AtUs: d.AtUs + []int{0, 0, 1, 50, 1000}[r.Intn(5)]})
+		}
 	}
 	return p
 }
